@@ -54,6 +54,12 @@ def r1_loop(ck, cx, kind, cls, f, fps):
               detail='foreign-unit-reject-clears-buffer', loc=cx.floc(f, fp.path.ev[clears[0]].node) if clears else cx.floc(f),
               message='%s framer empties its whole buffer when it meets a valid frame for a unit it does not serve: a request for a served unit that '
                       'arrived in the same read behind it is lost' % kind)
+        # ... and the loop goes on to the frames queued behind it (when nothing else ended the iteration: no data-absence outcome)
+        if in_root_loop(fp, r0) and not [a for a in fp.absences if a[0] > r0]:
+            ck.ob('R1', f.qn, 'loop continues after skipping a frame for a foreign unit', bool(nxt) and [k_ for i, k_, n_ in fp.loops if i > r0][0] == 'backedge',
+                  detail='loop-exits-after-foreign-unit', loc=cx.floc(f, fp.path.ev[r0].node),
+                  message='%s framer leaves its frame loop right after skipping a frame addressed to a unit it does not serve: frames for served units that arrived in the '
+                          'same read behind it stay undelivered (one frame per read delivers them, the same bytes in one read do not)' % kind)
     ck.ob('R1', f.qn, 'framer has a delivery path', dels > 0, detail='no-delivery-path', loc=cx.floc(f))
     return dels
 
@@ -152,7 +158,7 @@ def r4_escape(ck, cx, kind, cls, f, fps):
     return n
 
 
-def r5_chunk_independent_control(ck, cx, kind, cls, f, fps):
+def r5_chunk_independent_control(ck, cx, kind, cls, f, fps, rule='R5', why=''):
     """after the chunk has been appended to the buffer, no decision may look at the chunk itself"""
     chunk = f.params[1]
     n = 0
@@ -166,10 +172,10 @@ def r5_chunk_independent_control(ck, cx, kind, cls, f, fps):
             n += 1
             if root_chunk and U(ev._sub) not in seen:
                 seen.add(U(ev._sub))
-                ck.ob('R5', f.qn, 'no branch depends on the current chunk (only on the accumulated buffer)', False,
+                ck.ob(rule, f.qn, 'no branch depends on the current chunk (only on the accumulated buffer)', False,
                       detail='decision-on-chunk %s' % U(ev._sub)[:60], loc=cx.floc(f, ev.node),
-                      message='%s framer branches on `%s`, a property of the chunk just received: the same bytes cut differently take a different path' % (kind, U(ev._sub)[:80]))
-    ck.ob('R5', f.qn, 'branch conditions of the receive path were examined', n > 0, detail='no-conditions', loc=cx.floc(f))
+                      message='%s framer branches on `%s`, a property of the chunk just received: the same bytes cut differently take a different path%s' % (kind, U(ev._sub)[:80], why))
+    ck.ob(rule, f.qn, 'branch conditions of the receive path were examined', n > 0, detail='no-conditions', loc=cx.floc(f))
     return n
 
 
